@@ -20,6 +20,63 @@ META = {
 OPTS = ["indent", "spacer", "quote", "newlinechar", "end_comment", "align_values", "separate_complex_types"]
 
 
+def check_option_plumbing(ctx: Ctx, e, RID: str = "L2") -> None:
+    repo, facts = ctx.repo, e.facts
+    # ---- L2 --------------------------------------------------------------------------------------
+    ctx.rule(RID, "dump, save and dumps pass each of the seven options to the _pprint parameter of the same name; _pprint forwards name=name to PrettyPrinter; the constructor stores each option in the field the methods read", 5)
+    pp = repo.func("utils._pprint")
+    for q in ("utils.dump", "utils.save", "utils.dumps"):
+        cs = [c for c in facts.calls[q] if c.target == "utils._pprint"]
+        if len(cs) != 1:
+            ctx.finding(RID, f"{q} -> _pprint", repo.loc("utils", repo.func(q)), f"{q} does not call _pprint exactly once")
+            continue
+        b = bind_args(cs[0].node, pp)
+        bad = [(o, norm(b[o]) if b.get(o) is not None else None) for o in OPTS + ["d"] if not (isinstance(b.get(o), ast.Name) and b[o].id == o)]
+        ctx.check(not bad, RID, f"{q} -> _pprint option binding", repo.loc("utils", cs[0].node), "all by name", f"{q} binds {bad}: an option is swapped, dropped or replaced")
+    cs = [c for c in facts.calls["utils._pprint"] if c.target == "pprint.PrettyPrinter.__init__"]
+    if len(cs) != 1:
+        raise AnalysisError("anchor vanished: PrettyPrinter construction in _pprint")
+    b = bind_args(cs[0].node, repo.func("pprint.PrettyPrinter.__init__"), skip_self=True)
+    bad = [(o, norm(b[o]) if b.get(o) is not None else None) for o in OPTS if not (isinstance(b.get(o), ast.Name) and b[o].id == o)]
+    ctx.check(not bad, RID, "_pprint -> PrettyPrinter option binding", repo.loc("utils", cs[0].node), "all by name", f"_pprint binds {bad}")
+    # constructor stores (PAI with symbolic options)
+    I = e.interp(allow_fork=False)
+
+    def mk_opts():
+        return {
+            "indent": SNum.sym("indent", 0, None),
+            "spacer": SStr.atom("spacer", excludes=frozenset()),
+            "quote": '"',
+            "newlinechar": SStr.atom("nl"),
+            "end_comment": SBool("end_comment"),
+            "align_values": SBool("align_values"),
+            "separate_complex_types": SBool("separate_complex_types"),
+        }
+
+    opts = mk_opts()
+    inst = I.instantiate("pprint.PrettyPrinter", [], opts)
+    want = {
+        "indent": lambda v: v == opts["indent"],
+        "spacer": lambda v: isinstance(v, SStr) and len(v.pieces) == 1 and isinstance(v.pieces[0], av.Rep) and v.pieces[0].count == opts["indent"] and SStr(v.pieces[0].base) == opts["spacer"],
+        "newlinechar": lambda v: v == opts["newlinechar"],
+        "end_comment": lambda v: v is opts["end_comment"],
+        "align_values": lambda v: v is opts["align_values"],
+        "separate_complex_types": lambda v: v is opts["separate_complex_types"],
+    }
+    bad = [k for k, t in want.items() if k not in inst.attrs or not t(inst.attrs[k])]
+    q = inst.attrs.get("quoter")
+    if not (isinstance(q, pai.Inst) and q.attrs.get("quote") == '"' and q.attrs.get("altquote") == "'"):
+        bad.append("quote")
+    ctx.check(not bad, RID, "PrettyPrinter.__init__ stores every option", repo.loc("pprint", repo.func("pprint.PrettyPrinter.__init__")), "fields = options (spacer = spacer*indent)", f"constructor does not store option(s) {bad} in the field of that name")
+    # dump writes, save saves
+    d = repo.func("utils.dump")
+    w = [c for c in calls_in(d) if isinstance(c.func, ast.Attribute) and c.func.attr == "write" and dotted(c.func.value) == "fp"]
+    ctx.check(len(w) == 1 and isinstance(w[0].args[0], ast.Name), RID, "dump writes the _pprint result to fp", repo.loc("utils", d), "", "dump does not write the formatted string to fp")
+    sv = [c for c in facts.calls["utils.save"] if c.target == "utils._save"]
+    ctx.check(len(sv) == 1, RID, "save -> _save", repo.loc("utils", repo.func("utils.save")), "", "save does not write through _save")
+
+
+
 def run(ctx: Ctx) -> None:
     e = models.env(ctx)
     repo, facts = ctx.repo, e.facts
@@ -50,58 +107,7 @@ def run(ctx: Ctx) -> None:
     for q, fwd in (("parser.Parser.parse_file", "parser.Parser.parse"), ("parser.Parser.load", "parser.Parser.parse")):
         ctx.check(any(cs.target == fwd for cs in facts.calls[q]), "L1", f"{q} -> parse", repo.loc("parser", repo.func(q)), "", f"{q} does not go through Parser.parse")
 
-    # ---- L2 --------------------------------------------------------------------------------------
-    ctx.rule("L2", "dump, save and dumps pass each of the seven options to the _pprint parameter of the same name; _pprint forwards name=name to PrettyPrinter; the constructor stores each option in the field the methods read", 5)
-    pp = repo.func("utils._pprint")
-    for q in ("utils.dump", "utils.save", "utils.dumps"):
-        cs = [c for c in facts.calls[q] if c.target == "utils._pprint"]
-        if len(cs) != 1:
-            ctx.finding("L2", f"{q} -> _pprint", repo.loc("utils", repo.func(q)), f"{q} does not call _pprint exactly once")
-            continue
-        b = bind_args(cs[0].node, pp)
-        bad = [(o, norm(b[o]) if b.get(o) is not None else None) for o in OPTS + ["d"] if not (isinstance(b.get(o), ast.Name) and b[o].id == o)]
-        ctx.check(not bad, "L2", f"{q} -> _pprint option binding", repo.loc("utils", cs[0].node), "all by name", f"{q} binds {bad}: an option is swapped, dropped or replaced")
-    cs = [c for c in facts.calls["utils._pprint"] if c.target == "pprint.PrettyPrinter.__init__"]
-    if len(cs) != 1:
-        raise AnalysisError("anchor vanished: PrettyPrinter construction in _pprint")
-    b = bind_args(cs[0].node, repo.func("pprint.PrettyPrinter.__init__"), skip_self=True)
-    bad = [(o, norm(b[o]) if b.get(o) is not None else None) for o in OPTS if not (isinstance(b.get(o), ast.Name) and b[o].id == o)]
-    ctx.check(not bad, "L2", "_pprint -> PrettyPrinter option binding", repo.loc("utils", cs[0].node), "all by name", f"_pprint binds {bad}")
-    # constructor stores (PAI with symbolic options)
-    I = e.interp(allow_fork=False)
-
-    def mk_opts():
-        return {
-            "indent": SNum.sym("indent", 0, None),
-            "spacer": SStr.atom("spacer", excludes=frozenset()),
-            "quote": '"',
-            "newlinechar": SStr.atom("nl"),
-            "end_comment": SBool("end_comment"),
-            "align_values": SBool("align_values"),
-            "separate_complex_types": SBool("separate_complex_types"),
-        }
-
-    opts = mk_opts()
-    inst = I.instantiate("pprint.PrettyPrinter", [], opts)
-    want = {
-        "indent": lambda v: v == opts["indent"],
-        "spacer": lambda v: isinstance(v, SStr) and len(v.pieces) == 1 and isinstance(v.pieces[0], av.Rep) and v.pieces[0].count == opts["indent"] and SStr(v.pieces[0].base) == opts["spacer"],
-        "newlinechar": lambda v: v == opts["newlinechar"],
-        "end_comment": lambda v: v is opts["end_comment"],
-        "align_values": lambda v: v is opts["align_values"],
-        "separate_complex_types": lambda v: v is opts["separate_complex_types"],
-    }
-    bad = [k for k, t in want.items() if k not in inst.attrs or not t(inst.attrs[k])]
-    q = inst.attrs.get("quoter")
-    if not (isinstance(q, pai.Inst) and q.attrs.get("quote") == '"' and q.attrs.get("altquote") == "'"):
-        bad.append("quote")
-    ctx.check(not bad, "L2", "PrettyPrinter.__init__ stores every option", repo.loc("pprint", repo.func("pprint.PrettyPrinter.__init__")), "fields = options (spacer = spacer*indent)", f"constructor does not store option(s) {bad} in the field of that name")
-    # dump writes, save saves
-    d = repo.func("utils.dump")
-    w = [c for c in calls_in(d) if isinstance(c.func, ast.Attribute) and c.func.attr == "write" and dotted(c.func.value) == "fp"]
-    ctx.check(len(w) == 1 and isinstance(w[0].args[0], ast.Name), "L2", "dump writes the _pprint result to fp", repo.loc("utils", d), "", "dump does not write the formatted string to fp")
-    sv = [c for c in facts.calls["utils.save"] if c.target == "utils._save"]
-    ctx.check(len(sv) == 1, "L2", "save -> _save", repo.loc("utils", repo.func("utils.save")), "", "save does not write through _save")
+    check_option_plumbing(ctx, e, "L2")
 
     # ---- L3 --------------------------------------------------------------------------------------
     ctx.rule("L3", "every open()/codecs.open() call in the package passes encoding='utf-8'", 5)
